@@ -93,3 +93,10 @@ CHECKS["C02"] = dict(
     text="For each of ~60 distinct decorations harvested from the real comment-style table (single-line prefix, inline multi-line, first/middle/last line of a block, ASCII frame, tab and trailing blanks, XML attribute, reST field) and each tag kind (licence, contributor, five copyright spellings) CrossHair confirms over all paths that a value with one free character (ANY code point but line breaks; two free characters on a slice) is read back exactly. It also confirms that a tag line counts iff it lies inside the first 4096 bytes or the file holds a snippet marker (tag placed at every offset 4036..4103), and that a snippet marker is found at every offset around a 4096-byte block boundary.",
     note="PYRE validated against re each run; concrete subjects go to the real compiled pattern. Known findings (carved out by predicates computed from the real terminator pattern, re-established from witnesses each run): value ending like a terminator of any style; value ending with the mirrored prefix; copyright keeps the closing frame; tag straddling the 4 KiB limit is truncated. Outside: >2 free characters, invalid UTF-8, CRLF folding.",
 )
+
+CHECKS["C07"] = dict(
+    engine="XH+PYRE",
+    technique="symbolic execution (CrossHair + z3) of the real header builder, the real create_comment of every style and the real reader (patterns through PYRE), with a validated model of the Jinja template",
+    text="For every comment style class x {single, multi} where supported, CrossHair confirms over all paths that _create_new_header either raises CommentCreateError / MissingReuseInfoError or returns a header from which the tool's own reader yields exactly the requested copyright notice, licence expressions and (when rendered) contributor, for a request whose holder or contributor carries one free character (any code point but line breaks); representative styles are also explored under six template behaviours (default, dropping licences / copyright / contributors / everything, pre-commented), the copyright prefixes and year forms. Every entry of the extension and file-name tables is walked concretely and must map to one of the style classes covered.",
+    note="The template is replaced by a Python model; its default variant is compared with the bundled default_template.jinja2 on 300 inputs per run (harness error on mismatch). ReuseInfo fields are list-backed sets so that symbolic strings are never hashed. Known finding: the post-render check uses 'and', so a header that reads back differently (template dropping one kind; holder ending like a terminator) is written and reported as success - carved out and re-established from a witness on the real code each run.",
+)
